@@ -232,7 +232,11 @@ func (nt *notificationsTracker) Close() error {
 		return nil
 	default:
 		nt.cancel()
+		// Published under the lock for the same reason as the commit offset: a waiter that has just
+		// seen the tracker open would miss the broadcast and never wake up again
+		nt.Lock()
 		nt.closed.Store(true)
+		nt.Unlock()
 		nt.cond.Broadcast()
 		return nt.waitClose.Wait(context.Background())
 	}
